@@ -24,7 +24,7 @@ func runC15(c *an.Ctx) {
 	cg := c.P.CallGraph()
 	fns := neovmFuncs(c)
 	n := orderRuleFuncs(c, cg, fns, map[string]string{}, "order", nil, func(fn *ssa.Function) string { return an.FuncName(fn) })
-	c.RequireMin("map-range loops in the NeoVM packages", n, 3)
+	c.RequireMin("map-range loops in the NeoVM packages", n, 2)
 	// every other function that ranges over MapValue.Data is listed above; functions that need an order take it from getMapSortedKey
 	dataField := c.P.Field("vm/neovm/types.MapValue.Data")
 	if dataField == nil {
